@@ -513,7 +513,10 @@ func (b *Buffer) cleanup() {
 
 			// do the actual cleanup logic, note that though it returns a bool indicating if it actually did anything,
 			// the current implementation applies the cooldown regardless of if it did anything
-			b.cleanupLogic()
+			// NOTE: repeated for as long as it shifts, since the cleaner's answer may change once the buffer has been
+			// shifted (e.g. FixedBufferCleaner defers to DefaultCleaner, once trimmed), and nothing else would re-check
+			for b.cleanupLogic() {
+			}
 
 			// no wait?
 			if d <= 0 {
